@@ -155,6 +155,16 @@ def run(ctx):
     correspond(ctx, "specialize_triangle", spec,
                [("shim.tri_specialize", a_spec, spec_out), ("hazmat.tri_specialize", a_spec, spec_out)],
                coq_spec, HEADER, "chk_tri_specialize", nontrivial=nontriv)
+    # integer-valued nets handed to the pure-Python helpers as INTEGER arrays (the compiled twins only take float64 buffers): "all
+    # control nets" includes them; same model, same exact answer
+    ints = [c for c in cases if all(x.denominator == 1 for r in c["rows"] for x in r)]
+    rng = ctx.rng
+    for d in range(1, 9):
+        num = (d + 1) * (d + 2) // 2
+        ints.append({"d": d, "rows": [[Fraction(rng.randint(-9, 9)) for _ in range(num)] for _ in range(2)], "kind": "integer"})
+    as_int = lambda c: {"ai": [[int(x) for x in r] for r in c["rows"]]}
+    correspond(ctx, "subdivide_integer_arrays", ints, [("hazmat.tri_subdivide_nodes", lambda c: [as_int(c), c["d"]], subdiv_out)],
+               coq_sub, HEADER, "chk_tri_subdivide", judge=judge_sub, configs=("pure",), nontrivial=nontriv)
     return finish(ctx, "theorems: triangle blossoming at the level of index functions AND for the list-level model that is run "
                   "against the code (specialize_tri returns the control net of mu -> B(mu1 a + mu2 b + mu3 c); every degree, any ring); "
                   "the hard-coded tables equal the generic path for all real nets (field over R, regenerated tables/weights). The model "
